@@ -472,6 +472,9 @@ MUTANTS.append(('M89', U, '            _ => Err(format!("More than one non-zero 
                 '            _ => Ok(non_zero_values[0]),', 'C20', 'R20.9', 'an origin with several non-zero components silently yields the first one'))
 MUTANTS.append(('M90', U, "                        opw_parameters.c3 = non_zero(joint.vector.x, joint.vector.y)?;",
                 "                        opw_parameters.c3 = non_zero(joint.vector.x, joint.vector.z)?;", 'C20', 'R20.9', 'c3 of joint 4 read from x/z (a2 sits on z)'))
+MUTANTS.append(('M91', RT, "        while let Some(parent_index) = self.vertices[cur_index].parent_index {\n            cur_index = parent_index;\n            nodes.push(self.vertices[cur_index].data.clone())",
+                "        while let Some(parent_index) = self.vertices[cur_index].parent_index {\n            cur_index = parent_index;\n            if cur_index == 0 { break; }\n            nodes.push(self.vertices[cur_index].data.clone())",
+                'C13', 'R13.3', 'the ancestor walk stops before the root: paths lose their first and last node'))
 
 # ---- seventh batch: the URDF reader
 KEEP += [
@@ -705,6 +708,5 @@ KEEP += KEEP_AGENTS
 OPEN_REWRITES = {
     'R04-3': 'near-normaliser as a value-returning fn applied through array::from_fn: role and call sites are read as fn(&mut f64, f64)',
     'R12-2': 'flags of a Cartesian extension by split_last + extend, RRT gap by find_map: R12.5 reads the per-item flag choice',
-    'R13-2': 'ancestor walk by iter::successors, path assembly by rev().chain().collect(), orientation tested on the other tree: R13.3 reads the two walks, reverse and append',
     'R17-2': 'source and target bases through orthonormal_basis(o, x, y) -> Option<Matrix3> and ok_or_else(..)?: R17.1/R17.2 read the two column triples',
 }
